@@ -223,7 +223,9 @@ func checkC01(src string, withDir bool) core.Outcome {
 // files is visibly overwritten
 const siblingLong = "// Package a.\npackage a\n\nimport (\n\t\"fmt\"\n\n\t\"os\"\n)\n\n// f\nfunc f() {\n\tfmt.Println(os.Args)\n\n\t// done\n}\n\nvar (\n\ta = 1\n\n\tb = 2\n)\n"
 
-const siblingSrc = "package a\n\n// other file\nvar other = 1 // t\n"
+// the sibling has code on many lines, so that anything one file does to the line bookkeeping of
+// another file of the package shows
+const siblingSrc = "package a\n\n// other file\nvar other = 1 // t\n\nvar (\n\to1 = []int{\n\t\t1,\n\t\t2,\n\t}\n\to2 = f(\n\t\t3,\n\t)\n)\n\nfunc g() {\n\th(\n\t\t4,\n\t)\n}\n"
 
 // trailingCommentMigrated: the input ends in comments after its last token; in the output exactly
 // those comments left a.go and appeared at the start of b.go; nothing else changed.
